@@ -50,6 +50,15 @@ def classify(gp, row):
     return gp['types'][row[1]]
 
 
+def statement_class(row):
+    """the class the STATEMENT dictates for a CSV row: 'Not assigned' manager -> not-assigned, 'Retired' manager -> retired,
+    otherwise the row's IANA type"""
+    mgr = row[2].lower()
+    if mgr.startswith('not assigned'): return 'TLD_TYPE_NOT_ASSIGNED'
+    if mgr.startswith('retired'): return 'TLD_TYPE_RETIRED'
+    return 'TLD_TYPE_' + row[1].upper().replace('-', '_')
+
+
 def expected_header(gp):
     """text gen_tld_h() writes"""
     hp = gp['h_prints']
@@ -107,6 +116,13 @@ def run(ck):
                     wclass='row', what=f'table row {i} = {got} but generator rules on CSV row give {exp}')
     for i in (0, len(prow) // 2, len(prow) - 1):
         ck.sample({'csv': prow[i], 'table_row': rows[i]})
+    # R11.8 the generator's own rule is the documented one on every row of the shipped CSV
+    r8 = ck.rule('R11.8', 'util/gentld.pl classifies every CSV row as the statement documents (manager "Not assigned" -> not-assigned, "Retired" -> retired, otherwise the IANA type) and the table row carries that class', 1000)
+    for i, c in enumerate(prow):
+        if c[1] not in gp['types']: continue
+        want = statement_class(c); gen = classify(gp, c); tab = rows[i][2] if i < len(rows) - 1 else None
+        r8.instance(f'data/punycode.csv:row{i + 2}', ok=(gen == want and tab == want), wclass='class-rule',
+                    what=f'{c[0]!r} (type {c[1]!r}, manager {c[2]!r}) must be {want}; util/gentld.pl yields {gen}, the compiled table has {tab}', detail={'row': c})
     # R11.2 sentinel
     r2 = ck.rule('R11.2', 'the table ends with exactly one {NULL,0,0} sentinel, after the last CSV row', 1)
     last = rows[-1]
